@@ -48,6 +48,12 @@ def commitCalls : List String :=
    "generateServerKeyExchange", "processClientKeyExchange", "doFullHandshake", "doResumeHandshake",
    "processClientHello", "establishKeys"]
 
+/-- application callbacks of `Config` that see the ClientHello or the peer (and the helpers
+that build their argument / select the per-client Config) -/
+def helloCallbacks : List String :=
+  ["GetConfigForClient", "GetCertificate", "GetKECertificate", "VerifyPeerCertificate", "VerifyConnection",
+   "clientHelloInfo", "selectConfigForClient"]
+
 /-- SM3 digest size in bytes (GB/T 32905): the length of an HMAC-SM3 cookie -/
 def macLen : Nat := 32
 
@@ -79,7 +85,9 @@ theorem C18_facts :
     -- secret: configured one if non-empty, else a per-connection field filled once from config.rand()
     ∧ Facts.dtlcp.cookieSecretConfiguredFirst = true ∧ Facts.dtlcp.cookieSecretPerConnField = true
     ∧ Facts.dtlcp.cookieSecretFromConfigRand = true ∧ Facts.dtlcp.cookieSecretLen = 32
-    ∧ Facts.dtlcp.cookieSecretAssignSites = 1 := by
+    ∧ Facts.dtlcp.cookieSecretAssignSites = 1
+    -- no application callback that sees the hello runs before a valid cookie (F48 repair)
+    ∧ (∀ f ∈ helloCallbacks, f ∉ Facts.dtlcp.cookiePreReachable ∧ f ∈ Facts.dtlcp.cookiePostOnlyReachable) := by
   decide
 
 /-- `marshalForCookie` of this tree -/
@@ -227,15 +235,17 @@ read-timeout branch of `readNextClientHello` makes no call, i.e. one reply per r
 and none while the peer is silent): for every sequence of received hellos, every reaction before the loop exits is exactly one HelloVerifyRequest,
 the loop exits only on a hello whose cookie is non-empty and valid, and nothing that selects
 a certificate, uses a private key or starts key agreement is reachable before the exit while
-all of it is reachable after. -/
+all of it is reachable after; likewise no application callback that sees the hello
+(GetConfigForClient, GetCertificate, …) runs before a valid cookie (since the F48 repair). -/
 theorem C18_pre_cookie_actions (inp : List (Bool × Bool)) :
     (∀ a ∈ (runLoop macLen inp).1, a = .hvr macLen ∨ a = .proceed)
     ∧ (∀ i (hi : i < (runLoop macLen inp).1.length), (runLoop macLen inp).1[i] = .proceed →
         inp[i]? = some (false, true) ∧ i + 1 = (runLoop macLen inp).1.length)
     ∧ ((∀ e ∈ inp, e ≠ (false, true)) → runLoop macLen inp = (inp.map fun _ => .hvr macLen, false))
     ∧ (∀ f ∈ commitCalls, f ∉ Facts.dtlcp.cookiePreReachable ∧ f ∈ Facts.dtlcp.cookiePostOnlyReachable)
-    ∧ Facts.dtlcp.cookiePreHandshakeWrites = ["helloVerifyRequestMsg"] := by
-  refine ⟨?_, ?_, ?_, C18_facts.2.2.2.2.2.2.2.2.2.2.2.2.2.2.2.2.2.2.2.1, C18_facts.2.2.2.2.2.2.2.2.2.2.2.2.2.2.2.2.2.2.1⟩
+    ∧ Facts.dtlcp.cookiePreHandshakeWrites = ["helloVerifyRequestMsg"]
+    ∧ (∀ f ∈ helloCallbacks, f ∉ Facts.dtlcp.cookiePreReachable ∧ f ∈ Facts.dtlcp.cookiePostOnlyReachable) := by
+  refine ⟨?_, ?_, ?_, C18_facts.2.2.2.2.2.2.2.2.2.2.2.2.2.2.2.2.2.2.2.1, C18_facts.2.2.2.2.2.2.2.2.2.2.2.2.2.2.2.2.2.2.1, by decide⟩
   · induction inp with
     | nil => intro a ha; simp [runLoop] at ha
     | cons x xs ih =>
